@@ -262,3 +262,10 @@ def check(ctx: Ctx) -> None:
                                              "is answered with a false deadlock error", construct=f"{f_.short} acquires _receivelock")
             ob.site(f_, f_.node, f"{f_.short} (on the path from the end of the body to the completion event) takes no receiver lock")
         ob.require(nfn == 4, "completion path functions not found")
+
+    with ctx.obligation("C14.g", "accepted-request-is-run") as ob:
+        # "a remote_exec issued after the previous channel has closed always runs": the request is accepted by spawn() into the one-slot
+        # mailbox while the primary thread may still be between the end of the previous body and its re-check under _running_lock; the loop
+        # must neither clear the ready event nor leave while the mailbox holds a reply it has not run (same obligation as C09.d / C11.g)
+        from .C09 import check_primary_loop
+        check_primary_loop(repo, ob)
